@@ -682,6 +682,11 @@ class Machine:
         m = re.match(r"^assert\((!?)(.+?), \"(.*?)\".*\) -> \[success: bb(\d+), unwind.*\];$", t)
         if m:
             v = self.operand(st, m.group(2))
+            if isinstance(v, Opaque) and self.abstract:
+                # arithmetic over untracked values: decided by the harnesses that track them (C08 step), assumed to pass here
+                self.stats["asserts_assumed"] = self.stats.get("asserts_assumed", 0) + 1
+                fr.bb = int(m.group(4))
+                return [st]
             if isinstance(v, Opaque):
                 raise Unsupported("assert on opaque at " + where)
             cond = z3.Not(v) if m.group(1) else v
@@ -931,12 +936,16 @@ class Machine:
             v = self.read_loc(st, r.key, r.path) if isinstance(r, Ref) else r
             if isinstance(v, Slice):
                 return v
+            if self.abstract:
+                return Opaque("as_ref")
             raise Unsupported("as_ref of %r" % (v,))
         if re.search(r"^Vec::<.*>::len$", c):
             r = args[0]
             v = self.read_loc(st, r.key, r.path)
             if isinstance(v, VecM):
                 return v.len
+            if self.abstract:
+                return Opaque("len of untracked vec")
             raise Unsupported("Vec::len of %r" % (v,))
         if re.search(r"^Vec::<.*>::new$", c):
             return VecM(bv(0))
